@@ -56,6 +56,35 @@ def harness_cfg(c):
     }
 
 
+def harness_cfg_unmanaged(c):
+    return {
+        "tasks": sorted(c.get("Tasks", [])),
+        "max_size": c.get("MaxSize", 1), "preload": c.get("Preload", 0), "nobjs": c.get("NObjs", 2),
+        "has_runtime": bool(c.get("HasRuntime", True)),
+    }
+
+
+def project_unmanaged(st, sites):
+    tasks = sorted(st["pc"].keys())
+    woken = {}
+    for t in tasks:
+        if st["pc"][t] == "g_wait":
+            woken[t] = (t in st["sem"]["h"]) or st["sem"]["c"]
+        elif st["pc"][t] == "a_wait":
+            woken[t] = (t in st["ssem"]["h"]) or st["ssem"]["c"]
+    return {
+        "permits": st["sem"]["p"], "spermits": st["ssem"]["p"], "closed": st["sem"]["c"], "sclosed": st["ssem"]["c"],
+        "size": st["size"], "avail": st["avail"], "queue": st["queue"],
+        "pc": {t: sites.get(st["pc"][t], st["pc"][t]) for t in tasks},
+        "res": st["res"], "woken": woken,
+        "held": {t: sorted(st["held"][t]) for t in tasks},
+        "ext": sorted(st["ext"]), "dead": sorted(st["dead"]), "gone": st["poolGone"],
+    }
+
+
+PROJECTORS = {"managed": None, "unmanaged": project_unmanaged}
+
+
 def site_map(spec_path):
     """SiteOf(l) CASE arms of the specification -> {pc: site}."""
     txt = open(spec_path).read()
@@ -92,6 +121,7 @@ def parse_label(lbl):
     name, args = m.group(1), m.group(2)
     if not args:
         return name, "", []
+    args = re.sub(r'\bTRUE\b', 'true', re.sub(r'\bFALSE\b', 'false', args))
     a = json.loads('[' + args.replace('{', '[').replace('}', ']').replace('<<', '[').replace('>>', ']') + ']')
     return name, a[0], a[1:]
 
@@ -216,7 +246,7 @@ def tour(nodes, edges, init, maxlen):
     return paths
 
 
-def write_paths(out_path, hcfg, nodes, edges, paths, sites, meta):
+def write_paths(out_path, hcfg, nodes, edges, paths, sites, meta, kind="managed"):
     """Compact format: header, label table, node table (projected states), then paths as
     [label index, node index] pairs."""
     node_ix = {}
@@ -227,7 +257,8 @@ def write_paths(out_path, hcfg, nodes, edges, paths, sites, meta):
         if i is None:
             i = len(node_lines)
             node_ix[nid] = i
-            node_lines.append(json.dumps({"n": i, "post": project(state_to_json(nodes[nid]), sites)},
+            proj = project if kind == "managed" else PROJECTORS[kind]
+            node_lines.append(json.dumps({"n": i, "post": proj(state_to_json(nodes[nid]), sites)},
                                          separators=(',', ':')))
         return i
 
@@ -250,7 +281,7 @@ def write_paths(out_path, hcfg, nodes, edges, paths, sites, meta):
         nsteps += len(es)
         plines.append(json.dumps({"id": pid, "e": es}, separators=(',', ':')))
     with open(out_path, 'w') as f:
-        f.write(json.dumps({"cfg": hcfg, "meta": meta, "format": 2}) + "\n")
+        f.write(json.dumps({"cfg": hcfg, "meta": meta, "format": 2, "kind": kind}) + "\n")
         f.write(json.dumps({"labels": labels}, separators=(',', ':')) + "\n")
         for l in node_lines:
             f.write(l + "\n")
